@@ -577,7 +577,7 @@ pub fn gen_ip(rng: &mut Rng, hist: &mut Hist) -> (IpAddr, bool) {
     let v4 = Ipv4Addr::new(rng.below(256) as u8, rng.below(256) as u8, rng.below(256) as u8, rng.below(256) as u8);
     let o = v4.octets();
     let low = ((o[0] as u16) << 8 | o[1] as u16, (o[2] as u16) << 8 | o[3] as u16);
-    let (ip, kind): (IpAddr, &str) = match rng.below(16) {
+    let (ip, kind): (IpAddr, &str) = match rng.below(19) {
         0..=3 => (IpAddr::V4(v4), "v4"),
         4 => (IpAddr::V4(*rng.pick(&[Ipv4Addr::new(0, 0, 0, 0), Ipv4Addr::new(127, 0, 0, 1), Ipv4Addr::new(255, 255, 255, 255), Ipv4Addr::new(0, 0, 0, 1)])), "v4-special"),
         5..=7 => {
@@ -597,6 +597,18 @@ pub fn gen_ip(rng: &mut Rng, hist: &mut Hist) -> (IpAddr, bool) {
                 Ipv6Addr::new(0, 0, 0, 0, 0, 0, 1, 0),
             ])),
             "v6-collapsing-corner",
+        ),
+        16..=18 => (
+            // other well-known ways of embedding an IPv4 address: genuine IPv6 addresses
+            IpAddr::V6(*rng.pick(&[
+                Ipv6Addr::new(0x64, 0xff9b, 0, 0, 0, 0, low.0, low.1),        // NAT64 64:ff9b::/96
+                Ipv6Addr::new(0x64, 0xff9b, 1, 0, 0, 0, low.0, low.1),        // local-use NAT64 64:ff9b:1::/48
+                Ipv6Addr::new(0x2002, low.0, low.1, 0, 0, 0, 0, 1),           // 6to4 2002::/16
+                Ipv6Addr::new(0x2001, 0, low.0, low.1, 0, 0, !low.0, !low.1), // Teredo 2001::/32
+                Ipv6Addr::new(0xfe80, 0, 0, 0, 0, 0x5efe, low.0, low.1),      // ISATAP
+                Ipv6Addr::new(0, 0, 0, 0, 0xffff, 0, low.0, low.1),           // IPv4-translated ::ffff:0:a.b.c.d
+            ])),
+            "v6-embedding-v4",
         ),
         _ => (
             // near misses of the collapsed forms
